@@ -324,7 +324,10 @@ class HttpImpl:
                         sd = penc(self.toks.tok(gbody))
                     else:
                         match = [t for t, b in self.toks.data.items() if norm(b) == norm(data.encode("utf-8"))]
-                        sd = penc(match[0]) if match else "%3Funknown"
+                        # several bodies can be equal up to line endings (an upload with LF endings and its stored
+                        # form): the one the ETag of this answer names is the one that was served
+                        named = self.sym_etag(etag).strip('"') if etag is not None else None
+                        sd = penc(named if named in match else match[0]) if match else "%3Funknown"
                 out.append("%s:200;%s;%s" % (penc(k), se, sd))
         # -- independence: each href asked alone gets the same answer -----------------------
         if len(exp) > 1:
